@@ -35,6 +35,8 @@ def judge(x, k, out):
         return ['parent_deadlock']
     if x.rc == 79:
         return ['livelock_horizon']
+    if x.rc == 76:
+        return ['mutex_reinitialised_while_locked']
     if x.rc == 78:
         return ['HARNESS:replay_divergence']
     if x.san:
@@ -49,6 +51,8 @@ def judge(x, k, out):
         bad.append('child_not_reaped')
     elif r['child_status'] == 77:
         bad.append('child_deadlock_on_inherited_mutex')
+    elif r['child_status'] == 76:
+        bad.append('child_reinitialised_locked_mutex')
     elif r['child_status'] != 0:
         bad.append('child_failed_status_%d' % r['child_status'])
     if r['repo_count'] != 0 or not r['repo_first_null']:
